@@ -133,5 +133,7 @@ pub fn def() -> PropertyDef {
         witnesses: vec![Witness { finding: FINDING_PROJECT, run: witness_project }],
         exhaustive: None,
         exhaustive_in_quick: false,
+        custom: None,
+        custom_replay: None,
     }
 }
